@@ -10,9 +10,11 @@ import textwrap
 
 from common import TranslateError, ident_for, tt_code_map
 
-FUNCS = ["_parse_extern", "_parse_inline", "_parse_friend_decl", "_parse_typedef", "_consume_static_assert"]
+FUNCS = ["_parse_extern", "_parse_inline", "_parse_friend_decl", "_parse_typedef", "_consume_static_assert",
+         "_consume_attribute", "_consume_gcc_attribute", "_consume_declspec"]
 CALLEES = {"_parse_declarations": "F_declarations", "_parse_template_instantiation": "F_template_instantiation",
-           "_parse_namespace": "F_namespace"}
+           "_parse_namespace": "F_namespace", "_consume_gcc_attribute": "F_gcc_attribute", "_consume_declspec": "F_declspec",
+           "_consume_attribute_specifier_seq": "F_attribute_specifier_seq"}
 KWARGS = {"is_typedef": 1, "is_friend": 2, "inline": 3}
 OPEN_EXTERN = ["state = ExternBlockState(state, tok.location, etok.value)", "self._setup_state(state)",
                "if self.visitor.on_extern_block_start(state) is False:\n    self.visitor = null_visitor"]
@@ -23,7 +25,7 @@ class Tr:
         self.name = name
         self.codes = codes
         params = [a.arg for a in fn.args.args]
-        if params[:3] != ["self", "tok", "doxygen"] or any(p not in ("self", "tok", "doxygen", "template") for p in params):
+        if params[:2] != ["self", "tok"] or any(p not in ("self", "tok", "doxygen", "template") for p in params):
             raise TranslateError("%s: unexpected parameters %r" % (name, params))
         self.vars = {"tok": 0}
         self.state_alias = set()
@@ -65,6 +67,14 @@ class Tr:
         if (isinstance(t, ast.Compare) and len(t.ops) == 1 and isinstance(t.ops[0], ast.Eq) and isinstance(t.left, ast.Attribute)
                 and t.left.attr == "type" and isinstance(t.left.value, ast.Name)):
             return "(CTypeIs %d %s)" % (self.var(t.left.value.id), self.types(t.comparators)[1:-1])
+        if (isinstance(t, ast.Compare) and len(t.ops) == 1 and isinstance(t.ops[0], ast.In) and isinstance(t.left, ast.Attribute)
+                and t.left.attr == "type" and isinstance(t.left.value, ast.Name) and isinstance(t.comparators[0], ast.Attribute)
+                and ast.unparse(t.comparators[0].value) == "self"):
+            from cxxheaderparser.parser import CxxParser
+            vals = getattr(CxxParser, t.comparators[0].attr)
+            if not all(isinstance(x, str) and x in self.codes for x in vals):
+                raise TranslateError("%s: set %s" % (self.name, ast.unparse(t.comparators[0])))
+            return "(CTypeIn %d [%s])" % (self.var(t.left.value.id), "; ".join(ident_for(x) for x in sorted(vals, key=lambda x: self.codes[x])))
         if self.is_lex_call(t, "token_if"):
             return "(CTokenIf %s)" % self.types(t.args)
         raise TranslateError("%s: condition %s" % (self.name, ast.unparse(t)))
@@ -102,6 +112,8 @@ class Tr:
                     out.append("SAssign %d (ETokenIf %s)" % (self.var(st.targets[0].id, True), self.types(v.args)))
                 elif self.is_lex_call(v, "token") and not v.args:
                     out.append("SAssign %d EToken" % self.var(st.targets[0].id, True))
+                elif isinstance(v, ast.Call) and ast.unparse(v.func) == "self._next_token_must_be" and not v.keywords:
+                    out.append("SAssign %d (EMustBe %s)" % (self.var(st.targets[0].id, True), self.types(v.args)))
                 else:
                     raise TranslateError("%s: assignment %s" % (self.name, txt))
             elif txt == "self.state.location = tok.location":
@@ -112,10 +124,13 @@ class Tr:
                                                  "; ".join(self.block(st.orelse, tail))))
             elif isinstance(st, ast.Raise):
                 e = st.exc
-                if not (isinstance(e, ast.Call) and ast.unparse(e.func) == "self._parse_error" and len(e.args) == 1
+                if txt == "raise CxxParseError('internal error')":
+                    out.append("SRaiseInternal")
+                elif (isinstance(e, ast.Call) and ast.unparse(e.func) == "self._parse_error" and len(e.args) == 1
                         and isinstance(e.args[0], ast.Name) and not e.keywords):
+                    out.append("SRaise %d" % self.var(e.args[0].id))
+                else:
                     raise TranslateError("%s: raise %s" % (self.name, txt))
-                out.append("SRaise %d" % self.var(e.args[0].id))
             elif isinstance(st, ast.Return):
                 if st.value is not None:
                     raise TranslateError("%s: return with a value" % self.name)
@@ -125,6 +140,8 @@ class Tr:
                 f = ast.unparse(c.func)
                 if self.is_lex_call(c, "return_token") and len(c.args) == 1 and isinstance(c.args[0], ast.Name):
                     out.append("SReturnTok %d" % self.var(c.args[0].id))
+                elif f == "self._consume_balanced_tokens" and c.args and all(isinstance(a, ast.Name) for a in c.args) and not c.keywords:
+                    out.append("SConsumeBalanced [%s]" % "; ".join(str(self.var(a.id)) for a in c.args))
                 elif f == "self._next_token_must_be":
                     out.append("SMustBe %s" % self.types(c.args))
                 elif f == "self._discard_contents" and len(c.args) == 2:
